@@ -134,6 +134,8 @@ func (c *Conn) CloseNow() (err error) {
 	defer errd.Wrap(&err, "failed to immediately close WebSocket")
 
 	if !c.casClosing() {
+		// Do not wait for a close handshake that is in progress.
+		c.close()
 		err = c.waitGoroutines()
 		if err != nil {
 			return err
